@@ -608,6 +608,107 @@ theorem lines_eol (ps : List (Str × Bool)) (last : Str)
   | true => simp [stripCr_cr]
   | false => simp [stripCr_id _ (hp p h).2]
 
+/-! ### whole lines: comment-only, blank and label-only lines -/
+
+/-- what a comment starts with -/
+def startsComment (c : Str) : Prop := c.head? = some ';' ∨ c.head? = some '/'
+
+theorem skip_to_comment (ws c : Str) (hws : blanks ws) (hc : startsComment c) : skipSpace (ws ++ c) = c := by
+  rw [space_absorbs ws c hws]
+  cases c with
+  | nil => rfl
+  | cons x xs =>
+    have hx : isSpace x = false := by
+      rcases hc with h | h <;> (simp at h; subst h; decide)
+    simp [skipSpace, hx]
+
+theorem identText_none (c : Str) (x : Char) (xs : Str) (h : c = x :: xs) (hx : isIdentStart x = false) : identText c = none := by
+  subst h; simp [identText, hx]
+
+/-- **Comment-only and blank lines.**  Any run of blanks and tabs followed by a comment of any of
+    the three styles (whatever its text) — and a line of blanks only — reads as the EMPTY line:
+    inserting or removing such lines changes nothing but the line numbers. -/
+theorem comment_only_line (ws c : Str) (hws : blanks ws) (hc : startsComment c) (hcom : comment c = some []) :
+    line (ws ++ c) = .ok .emptyLine := by
+  obtain ⟨x, xs, rfl⟩ : ∃ x xs, c = x :: xs := by
+    cases c with
+    | nil => rcases hc with h | h <;> simp at h
+    | cons x xs => exact ⟨x, xs, rfl⟩
+  have hx : x = ';' ∨ x = '/' := by rcases hc with h | h <;> (simp at h; simp [h])
+  have hid : isIdentStart x = false := by rcases hx with rfl | rfl <;> decide
+  have hsk := skip_to_comment ws (x :: xs) hws hc
+  -- no label: the line starts with a blank or with the comment character
+  have hlab : label (ws ++ x :: xs) = none := by
+    cases ws with
+    | nil => simp [label, identText, hid]
+    | cons w ws' =>
+      have hw : isSpace w = true := hws w (by simp)
+      have : isIdentStart w = false := by
+        simp only [isSpace, Bool.or_eq_true, beq_iff_eq] at hw
+        rcases hw with rfl | rfl <;> decide
+      simp [label, identText, this]
+  have hdir : directive (x :: xs) = none := by
+    rcases hx with rfl | rfl <;> simp [directive]
+  have hop : operation (x :: xs) = none := by simp [operation, identText, hid]
+  unfold line
+  simp only [optLabel, hlab, hsk, hdir, hop, hcom]
+  rfl
+
+theorem blank_line (ws : Str) (hws : blanks ws) : line ws = .ok .emptyLine := by
+  have hsk : skipSpace ws = [] := by
+    have := space_absorbs ws [] hws
+    simpa [skipSpace] using this
+  have hlab : label ws = none := by
+    cases ws with
+    | nil => simp [label, identText]
+    | cons w ws' =>
+      have hw : isSpace w = true := hws w (by simp)
+      have : isIdentStart w = false := by
+        simp only [isSpace, Bool.or_eq_true, beq_iff_eq] at hw
+        rcases hw with rfl | rfl <;> decide
+      simp [label, identText, this]
+  unfold line
+  simp only [optLabel, hlab, hsk]
+  simp [directive, operation, identText, comment, takeWhileP]
+
+/-- a well-formed name: a letter or `_`, then letters, digits, `_` -/
+def isName (n : Str) : Prop := ∃ x xs, n = x :: xs ∧ isIdentStart x = true ∧ ∀ c ∈ xs, isIdentChar c = true
+
+theorem identText_name (n rest : Str) (hn : isName n) (hr : ∀ c, rest.head? = some c → isIdentChar c = false) :
+    identText (n ++ rest) = some (n, rest) := by
+  obtain ⟨x, xs, rfl, hx, hxs⟩ := hn
+  simp only [List.cons_append, identText, hx, if_true]
+  rw [takeWhile_all isIdentChar xs rest hxs hr]
+
+/-- **A label-only line** with any blanks and any comment after the colon is that label
+    (lower-cased), nothing else -/
+theorem label_line (n ws c : Str) (hn : isName n) (hws : blanks ws) (hc : startsComment c) (hcom : comment c = some []) :
+    line (n ++ ':' :: (ws ++ c)) = .ok (.label (lower n)) ∧ line (n ++ ':' :: ws) = .ok (.label (lower n)) := by
+  have hid : identText (n ++ ':' :: (ws ++ c)) = some (n, ':' :: (ws ++ c)) :=
+    identText_name n _ hn (by intro ch h; simp at h; subst h; decide)
+  have hid2 : identText (n ++ ':' :: ws) = some (n, ':' :: ws) :=
+    identText_name n _ hn (by intro ch h; simp at h; subst h; decide)
+  obtain ⟨x, xs, rfl⟩ : ∃ x xs, c = x :: xs := by
+    cases c with
+    | nil => rcases hc with h | h <;> simp at h
+    | cons x xs => exact ⟨x, xs, rfl⟩
+  have hx : x = ';' ∨ x = '/' := by rcases hc with h | h <;> (simp at h; simp [h])
+  have hidx : isIdentStart x = false := by rcases hx with rfl | rfl <;> decide
+  have hsk := skip_to_comment ws (x :: xs) hws hc
+  have hsk2 : skipSpace ws = [] := by
+    have := space_absorbs ws [] hws
+    simpa [skipSpace] using this
+  have hdir : directive (x :: xs) = none := by
+    rcases hx with rfl | rfl <;> simp [directive]
+  have hop : operation (x :: xs) = none := by simp [operation, identText, hidx]
+  constructor
+  · unfold line
+    simp only [optLabel, label, hid, hsk, hdir, hop, hcom]
+    rfl
+  · unfold line
+    simp only [optLabel, label, hid2, hsk2]
+    simp [directive, operation, identText, comment]
+
 /-! non-vacuity: 26 in the five spellings, followed by a comma -/
 example : eConst "26,".toList = some (26, [',']) ∧ eConst "0x1A,".toList = some (26, [',']) ∧
     eConst "$1a,".toList = some (26, [',']) ∧ eConst "0b11010,".toList = some (26, [',']) ∧
